@@ -21,7 +21,7 @@ fn spec() -> Spec {
     .floor("types_exercised", 100)
     .floor("typed_accepts", 50_000)
     .floor("typed_rejects", 50_000)
-    .floor("harvested_payloads", 500)
+    .floor("harvested_payloads", 300)
     .floor("harvest_typed_accepts", 200)
     .floor("roundtrips_checked", 50_000)
     .explain("equality is PartialEq where the type has it, else byte equality of the re-encoding")
@@ -148,8 +148,9 @@ fn check_generic<T: Debug, C: Codec<T>>(
             return true;
         }
     };
-    if let Ok(Err(e)) = catch_mut(|| validate(fl, &enc, schema, tid, 64)) {
-        // only a new fact if the encoding differs from p or p itself validated
+    // (when p itself failed validation and re-encodes to the same bytes this is the same fact again)
+    let same_fact = sv.is_err() && enc == p;
+    if let (false, Ok(Err(e))) = (same_fact, catch_mut(|| validate(fl, &enc, schema, tid, 64))) {
         sh.violation(
             format!("encoding-of-typed-value-rejected-by-own-schema:{}", val_class(&e)),
             detail("encode(v) fails validation against T's schema", json!({"encoded": hex(&enc), "validation_error": e})),
@@ -652,7 +653,7 @@ pub fn run(args: &Args) -> Report {
     report.extra.insert("harvested_distinct_payloads".into(), json!(harvested.scrypto.len()));
     report.extra.insert("setup_seconds".into(), json!(t0.elapsed().as_secs_f64()));
     let secs = rv_common::budget_secs(args.tier, 25, 420);
-    let cap = rv_common::scaled(args, args.tier.pick(200_000u64, 20_000_000u64)) / 6 / args.threads as u64 + 1;
+    let cap = rv_common::scaled(args, args.tier.pick(24_000_000u64, 800_000_000u64)) / 6 / args.threads as u64 + 1;
     let nthreads = args.threads;
     report.run_shards(22, args.threads, Duration::from_secs(secs), |idx, rng, sh| {
         // harvested payloads x roster, partitioned over shards
